@@ -81,7 +81,7 @@ func nameClass(s string) string {
 
 func runC17(c *Ctx) {
 	r := c.R
-	r.SetRule("every string over {a,z,0,9,-,.,A,_} up to the stated length (exhaustive), all lengths 1..70 of valid characters, IP-looking and random names; PUT /<name> on mem, bolt, fs-mm; a case is one (name, backend) pair, distinct+non-trivial = distinct (name, backend) whose verdict was checked against BucketNameOracle and ListBuckets/HEAD")
+	r.SetRule("every string over {a,z,0,9,-,.,A,_} up to the stated length (exhaustive), all lengths 1..70 of valid characters, every two-character start and end over the whole letter and digit alphabet around hyphens, names that other naming schemes reserve, random names over all valid characters, IP-looking and random hostile names; PUT /<name> on mem, bolt, fs-mm; a case is one (name, backend) pair, distinct+non-trivial = distinct (name, backend) whose verdict was checked against BucketNameOracle and ListBuckets/HEAD")
 	alphabet := []byte("az09-.A_")
 	maxExh := r.Pick(5, 6)
 	var names []string
@@ -154,6 +154,33 @@ func runC17(c *Ctx) {
 			}
 		}
 		names = append(names, strings.Join(good[:nl], "."))
+	}
+	// the whole letter and digit alphabet: every two-character start and end around hyphens (prefixes
+	// and suffixes that other naming schemes reserve - xn--, sthree-, -s3alias, --ol-s3, .mrap - are
+	// ordinary names under the documented rules), and random names over all valid characters
+	const alnum = "abcdefghijklmnopqrstuvwxyz0123456789"
+	for _, c1 := range alnum {
+		for _, c2 := range alnum {
+			p := string(c1) + string(c2)
+			names = append(names, p+"--abc", p+"-abc", "abc--"+p, p+"--"+p+".example")
+		}
+	}
+	names = append(names, "xn--abc", "xn--80ak6aa92e", "xn--bcher-kva.example", "abc.xn--def", "sthree-abc", "sthree-configurator", "abc-s3alias", "abc--ol-s3", "abc--x-s3",
+		"amzn-s3-demo-bucket", "abc.mrap", "aws-logs", "s3-bucket", "arn-aws", "null", "undefined", "con", "nul", "bucket", "buckets", "metadata", "uploads", "localhost", "example.com")
+	for i := 0; i < r.Pick(4000, 60000); i++ {
+		n := 3 + rng.Intn(20)
+		b := make([]byte, n)
+		for j := range b {
+			switch x := rng.Intn(12); {
+			case x == 0:
+				b[j] = '-'
+			case x == 1 && j > 2 && j < n-3:
+				b[j] = '.'
+			default:
+				b[j] = alnum[rng.Intn(len(alnum))]
+			}
+		}
+		names = append(names, string(b))
 	}
 	// IP-looking names
 	ips := []string{"100.100.100.100", "192.168.100.200", "255.255.255.255", "127.100.100.101", "111.222.111.222",
